@@ -961,8 +961,10 @@ impl Matcher for CursorPositionMatcher {
 /// "\x1b[18t" - Report the size of the text area in characters ("\x1b[8{height};{width}t")
 /// "\x1b[14t" - Report text area size in pixels ("\x1b[4{height};{width}t")
 ///
-/// This matcher expects to receive two responses at once and used as a fallback to
-/// way to get terminal size if ioctl does not work as expected.
+/// This matcher is used as a fallback way to get terminal size if ioctl does not work as
+/// expected. Two responses normally arrive at once and are reported as a single event,
+/// but other input (a key press) can get between them, so each response is also accepted
+/// on its own, the part of the size that was not reported is left empty.
 #[derive(Debug)]
 struct TermSizeMatcher;
 
@@ -977,32 +979,29 @@ impl Matcher for TermSizeMatcher {
             NFA::number(),
             NFA::from("t"),
         ]);
-        let nfa = NFA::sequence([NFA::from("\x1b[8"), size.clone(), NFA::from("\x1b[4"), size]);
+        let cells = NFA::sequence([NFA::from("\x1b[8"), size.clone()]);
+        let pixels = NFA::sequence([NFA::from("\x1b[4"), size]);
+        let nfa = NFA::choice([
+            NFA::sequence([cells.clone(), pixels.clone()]),
+            cells,
+            pixels,
+        ]);
         Either::Left(nfa)
     }
 
     fn decode(&self, data: &[u8]) -> Option<Self::Item> {
-        // "\x1b[8;{cell_height};{cell_width}t\x1b[4;{pixel_height};{pixel_width}t"
-        let mut chunks = data.split(|c| *c == b'\x1b');
-        chunks.next()?; // empty
-        let cell_size = chunks.next()?;
-        let mut nums = numbers_decode(&cell_size[3..cell_size.len() - 1], b';');
-        let cell_height = nums.next()?;
-        let cell_width = nums.next()?;
-        let pixel_size = chunks.next()?;
-        let mut nums = numbers_decode(&pixel_size[3..pixel_size.len() - 1], b';');
-        let pixel_height = nums.next()?;
-        let pixel_width = nums.next()?;
-        Some(TerminalEvent::Size(TerminalSize {
-            cells: Size {
-                height: cell_height,
-                width: cell_width,
-            },
-            pixels: Size {
-                height: pixel_height,
-                width: pixel_width,
-            },
-        }))
+        // "\x1b[8;{cell_height};{cell_width}t" and/or "\x1b[4;{pixel_height};{pixel_width}t"
+        let mut size = TerminalSize::default();
+        for chunk in data.split(|c| *c == b'\x1b').skip(1) {
+            let mut nums = numbers_decode(chunk.get(3..chunk.len() - 1)?, b';');
+            let part: &mut Size = match chunk.get(1)? {
+                b'8' => &mut size.cells,
+                _ => &mut size.pixels,
+            };
+            part.height = nums.next()?;
+            part.width = nums.next()?;
+        }
+        Some(TerminalEvent::Size(size))
     }
 }
 
